@@ -281,6 +281,7 @@ func forkExperiment(w *World, rep *verifutil.Report, r *verifutil.Rng, sc, step 
 		rep.Note("fork builder failed to boot: %v", err)
 		return
 	}
+	defer func() { B.Dispose() }()
 	if _, err := B.Chain.ResetTo(ancestor); err != nil {
 		rep.Note("fork builder could not go back to %d: %v", ancestor, err)
 		return
@@ -463,6 +464,7 @@ func forkExperiment(w *World, rep *verifutil.Report, r *verifutil.Rng, sc, step 
 		rep.Note("adopter failed to boot: %v", err)
 		return
 	}
+	defer A.Dispose()
 	resolver := consensus.NewForkResolver(nil, nil, A.Chain, A.Stats)
 	before, _ := DigestDB(A.DB, nil)
 	perr := resolver.VerifProcessBlocks(fork)
@@ -568,6 +570,7 @@ func forkExperiment(w *World, rep *verifutil.Report, r *verifutil.Rng, sc, step 
 			rep.Count("adoptions_reverting_more_txs_of_one_sender_than_the_queue_limit", 1)
 		}
 		if A2, err := tmpReplica(w, w.God, CloneDB(A.DB), "adopterCopy"); err == nil {
+			defer A2.Dispose()
 			A.TxPool.AddExternalTxs(validation.MempoolTx, reverted...)
 			A2.TxPool.AddExternalTxs(validation.MempoolTx, chainOrder...)
 			have := map[common.Hash]bool{}
@@ -596,6 +599,7 @@ func forkExperiment(w *World, rep *verifutil.Report, r *verifutil.Rng, sc, step 
 		rep.Note("clean-sync node failed to boot: %v", err)
 		return
 	}
+	defer C.Dispose()
 	for _, ob := range w.Blocks[:len(w.Blocks)-d] {
 		if err := C.AddBlock(ob); err != nil {
 			rep.Note("clean-sync node refused canonical block %d: %v", ob.Height(), err)
